@@ -106,6 +106,16 @@ pub fn chunkings(n: usize, thorough: bool) -> Vec<(String, Vec<usize>)> {
     if n >= 3 && thorough {
         v.push(("thirds".into(), vec![n / 3, n / 3, n - 2 * (n / 3)]));
     }
+    if n > 2048 && thorough {
+        // chunks that exactly fill a 1024-byte buffer, the last one arbitrary
+        let mut s = vec![1024; n / 1024];
+        if n % 1024 != 0 {
+            s.push(n % 1024);
+        }
+        v.push(("1k".into(), s));
+        // a last chunk of exactly 1024 bytes
+        v.push(("last1024".into(), vec![n - 1024, 1024]));
+    }
     v
 }
 
